@@ -43,7 +43,7 @@ SHRINK = ["ops"]
 def plan(tier):
     if tier == "thorough":
         return {"cases": 1500, "timeout": 900, "wall_budget": 1700, "recheck": 4, "nproc": 6}
-    return {"cases": 40, "timeout": 600, "wall_budget": 110, "recheck": 2, "nproc": 6}
+    return {"cases": 40, "timeout": 600, "wall_budget": 200, "recheck": 2, "nproc": 6}
 
 FILES = ["a.txt", "b.txt", "dir/c.txt"]
 
@@ -63,7 +63,7 @@ def gen_case(rng, tier, index):
                         "up-%x" % rng.getrandbits(24), "t%d" % rng.randrange(3)])
         elif r < 0.42:
             k = rng.choice(["branch", "branch", "tag", "commit", "commit_on_branch", "commit_on_branch", "tag_on_branch",
-                            "dir", "add2", "rm2", "toimport", "togit", "rebase"])
+                            "dir", "add2", "rm2", "toimport", "togit", "rebase", "both_branch", "both_branch"])
             ops.append(["spec", k, rng.choice(["master", "dev"]), "t%d" % rng.randrange(3), rng.choice([".", "sub", "sub2"]),
                         rng.randrange(nrepo)])
         elif r < 0.67:
@@ -120,8 +120,14 @@ def directed_cases(tier):
         for i, tail in enumerate(conv):
             convs.append({"nrepo": 1, "spec": {"scms": [{"type": "git", "repo": 0, "branch": "master", "dir": "."}]},
                           "release": release, "directed": "convergence %d" % i, "ops": [["bob", "dev", 1]] + tail})
+        # two sibling SCM directories changed by one recipe edit (and back)
+        convs.append({"nrepo": 2, "spec": {"scms": [{"type": "git", "repo": 0, "branch": "master", "dir": "sub"}]},
+                      "release": release, "directed": "two SCMs changed at once",
+                      "ops": [["bob", "dev", 1], ["spec", "add2", "master", "t0", ".", 1], ["bob", "dev", 2],
+                              ["spec", "both_branch", "dev", "t0", ".", 0], ["bob", "dev", 3],
+                              U("commit", "master"), ["spec", "both_branch", "master", "t0", ".", 0], ["bob", "dev", 4]]})
     if tier != "thorough":
-        convs = convs[:4] + convs[4::2]
+        convs = [c for i, c in enumerate(convs) if i < 4 or i % 2 == 0 or "two SCMs" in c["directed"]]
     if tier != "thorough":
         npairs = len(pairs)
         out = out[:6] + out[12:16] + out[npairs:npairs + 2] + out[npairs + 2::3] + out[2 * npairs - 4:]
@@ -168,7 +174,12 @@ def _setup_upstream(git, top, nrepo):
         common.write_file(os.path.join(work, "a.txt"), "repo%d a v1\n" % i)
         git.run(work, "commit", "-q", "-am", "second")
         git.run(work, "tag", "t0")
-        git.run(work, "branch", "dev")
+        # the dev branch differs from master in content from the start
+        git.run(work, "checkout", "-q", "-b", "dev")
+        common.write_file(os.path.join(work, "dev-only.txt"), "repo%d dev\n" % i)
+        git.run(work, "add", "-A")
+        git.run(work, "commit", "-q", "-m", "dev branch")
+        git.run(work, "checkout", "-q", "master")
         os.makedirs(os.path.dirname(bare), exist_ok=True)
         git.run(top, "clone", "-q", "--bare", work, bare)
         git.run(work, "remote", "add", "origin", bare)
@@ -214,6 +225,15 @@ def _repos_under(proj):
             out.append(root)
             dirs.remove(".git")
     return sorted(out)
+
+def _git_heads(git, ws):
+    """Commit every git directory below ws is at.  (The *name* of the local branch is not compared:
+    when the workspace already is at the commit a `branch` + `commit` specification asks for, Bob
+    deliberately leaves it alone, whatever the local branch is called.)"""
+    out = {}
+    for repo in _repos_under(ws):
+        out[os.path.relpath(repo, ws)] = git.run(repo, "rev-parse", "HEAD", check=False).stdout.decode().strip()
+    return out
 
 def _find_markers(git, proj, markers):
     """Which markers are still present (working trees or reachable history)?"""
@@ -347,6 +367,13 @@ def run_case(case):
                         s0.pop("tag", None); s0.pop("commit", None)
                         if git.run(repos[s0["repo"]]["work"], "rev-parse", "--verify", "-q", br, check=False).returncode == 0:
                             s0["branch"] = br
+                    elif k == "both_branch":
+                        # one recipe edit that changes every git SCM of the package at once
+                        for sx in spec["scms"]:
+                            if sx["type"] == "git" and git.run(repos[sx["repo"]]["work"], "rev-parse", "--verify", "-q", br,
+                                                               check=False).returncode == 0:
+                                sx.pop("tag", None); sx.pop("commit", None)
+                                sx["branch"] = br
                     elif k == "tag" and s0["type"] == "git":
                         if git.run(repos[s0["repo"]]["work"], "rev-parse", "--verify", "-q", "refs/tags/" + tag, check=False).returncode == 0:
                             s0.pop("branch", None); s0.pop("commit", None)
@@ -492,13 +519,22 @@ def run_case(case):
                             common.rmtree(os.path.join(top, "clean%d" % ncleans))
                             continue
                         a = treecmp.canon(os.path.join(proj, srcws), ignore_scm=True)
-                        b = treecmp.canon(os.path.join(cp, _lib_src(cp, release)), ignore_scm=True)
+                        fresh_ws = os.path.join(cp, _lib_src(cp, release))
+                        b = treecmp.canon(fresh_ws, ignore_scm=True)
+                        # ... and every git directory is at the same commit, on the same branch (or detached)
+                        ha = _git_heads(git, os.path.join(proj, srcws))
+                        hb = _git_heads(git, fresh_ws)
                         stats.inc("convergence_checks")
                         common.rmtree(os.path.join(top, "clean%d" % ncleans))
                         if a != b:
                             viol = {"kind": "checkout-does-not-converge",
                                     "detail": "after op %d: untouched source workspace differs from a fresh checkout of %s: %s" % (
                                         n, spec, treecmp.diff(a, b, 5))}
+                            break
+                        if ha != hb:
+                            viol = {"kind": "checkout-does-not-converge",
+                                    "detail": "after op %d: untouched source workspace has the files of a fresh checkout of %s but its "
+                                              "git state differs: %s, fresh checkout: %s" % (n, spec, ha, hb)}
                             break
             except GitError as e:
                 stats.inc("harness_git_op_skipped")
